@@ -523,10 +523,22 @@ Proof.
   destruct (send_session h2 m (SRoom 0)) as [h3 o2] eqn:H3. cbn [fst]. rewrite (fst_eq _ _ _ H3). now apply ci_send_session.
 Qed.
 
+Lemma ci_transient_update h k r del key val : CI h -> CI (fst (transient_update h k r del key val)).
+Proof.
+  intros C. unfold transient_update.
+  assert (Hn : forall d m, CI (fst (transient_notify h k r d m))).
+  { intros d m. unfold transient_notify. apply wf_fold_sessions.
+    - eapply ci_same; [|exact C]. ssc.
+    - intros. now apply ci_send_session. }
+  destruct (del || N.eqb val 0).
+  - destruct (aget (r_transient r) key); [apply Hn|exact C].
+  - destruct (aget (r_transient r) key) as [v|]; [destruct (N.eqb v val); [exact C|apply Hn]|apply Hn].
+Qed.
+
 Lemma ci_room_request h k q : CI h -> CI (fst (room_request h k q)).
 Proof.
   intros C. unfold room_request. destruct (room_of h k) as [r|]; [|exact C].
-  destruct q as [|users rs|tag|l|l|ic|tag|ok]; [| | | | | | |exact C].
+  destruct q as [|users rs|tag|l|l|ic|tag|ok|del key val]; [| | | | | | |exact C|now apply ci_transient_update].
   - match goal with |- context [fold_sessions h ?int ?f] => set (internals := int); set (g := f) end.
     destruct (fold_sessions h internals g) as [h0 o0] eqn:H0.
     assert (C0 : CI h0).
@@ -603,7 +615,7 @@ Lemma ci_do_api h b room q : CI h -> CI (fst (do_api h b room q)).
 Proof.
   intros C. unfold do_api.
   pose proof ci_publish as Hpub.
-  destruct q as [|users rs|tag|l|l|ic|tag|ok]; cbn [fst]; auto.
+  destruct q as [|users rs|tag|l|l|ic|tag|ok|del key val]; cbn [fst]; auto.
   - match goal with |- CI (fold_left ?f ?l ?h0) => apply (wf_fold_left_hub CI f l h0) end.
     + match goal with |- CI (fold_left ?f ?l ?h0) => apply (wf_fold_left_hub CI f l h0) end; auto.
     + intros hh x Hhh. destruct (aget (h_rs2 hh) (1000000 + x)); auto.
@@ -786,14 +798,9 @@ Proof.
   - apply Hws. intros cn sid s Hc Hs. now apply ci_do_media.
   - now apply ci_do_mcudone.
   - apply Hws. intros cn sid s Hc Hs. destruct (s_room s) as [k|]; [|exact C].
+    destruct (2 <=? kindn); [exact C|].
     destruct (negb (allowed_transient s)); [exact C|]. destruct (room_of h k) as [r|]; [|exact C].
-    assert (Hupd : forall tr, CI (set_rooms h (pset (h_rooms h) k (mkroom (r_members r) (r_incall r) (r_sessdata r) tr (r_props r))))).
-    { intros tr. eapply ci_same; [|exact C]. ssc. }
-    destruct (N.eqb kindn 0).
-    + destruct (aget (r_transient r) key) as [v|].
-      * destruct (N.eqb v val); [exact C|]. apply wf_fold_sessions; [apply Hupd|]. intros. now apply ci_send_session.
-      * apply wf_fold_sessions; [apply Hupd|]. intros. now apply ci_send_session.
-    + destruct (aget (r_transient r) key); [|exact C]. apply wf_fold_sessions; [apply Hupd|]. intros. now apply ci_send_session.
+    now apply ci_transient_update.
   - now apply ci_deliver_at.
 Qed.
 
